@@ -143,7 +143,10 @@ def canon(v, keep_index, sort_rows):
         if isinstance(idx, pd.MultiIndex):
             f = f.reset_index()
         else:
-            f.insert(0, "__index__", _norm_col(pd.Series(np.asarray(idx), dtype=None if idx.dtype.kind != "O" else object)).values)
+            label = "__verif_index__"  # (dask-expr itself uses "__index__" / "__series__" as placeholder column names)
+            while label in f.columns:
+                label += "_"
+            f.insert(0, label, _norm_col(pd.Series(np.asarray(idx), dtype=None if idx.dtype.kind != "O" else object)).values)
             f = f.reset_index(drop=True)
     else:
         f = f.reset_index(drop=True)
